@@ -28,6 +28,8 @@ type mKeyset struct {
 	PrimaryFirst bool   // primary_key_id also written first with another value (last wins)
 }
 
+func protoNum(n int) protowire.Number { return protowire.Number(n) }
+
 func appVar(b []byte, num protowire.Number, v uint64) []byte {
 	b = protowire.AppendTag(b, num, protowire.VarintType)
 	return protowire.AppendVarint(b, v)
